@@ -368,7 +368,7 @@ CHECK = {
             "toENU(ecef) / toECEF / toWGS84 / round trips / isAnchored / getEnuToEcefTransform / getAnchor); anchors |lat|<=85deg "
             "(ends included), longitudes incl. +-pi and neighbours, h in [-500,9000] m; points within 100 km / 10 km of the current "
             "anchor (axis-aligned displacements included); non-trivial = at least 3 op kinds with a reset or re-anchoring",
-    "trusted": ["hand-written models coq/EnuModel.v, coq/GeodesyModel.v tied by differential execution (this run)",
+    "trusted": ["translator translate/srcfuns.py (clang AST of setAnchor's comma initialisers -> Gallina)", "hand-written models coq/EnuModel.v, coq/GeodesyModel.v tied by differential execution (this run)",
                 "Eigen Transform::inverse / 3x3 inverse / matrix-vector product modelled (adjugate inverse), not verified",
                 "translator translate/constants.py (GRS80 axes, EPSILON)", "extraction, ocaml/numf.ml, ocaml/drv_C02.ml",
                 "harness/C02.cpp (reports 'assert' instead of calling an asserting method on an un-anchored converter), mpmath oracle"],
@@ -376,7 +376,7 @@ CHECK = {
                     "toENU(WGS84Coordinates) is read as 'the point at the anchor's altitude' (altitude 0 on a fresh/reset converter)"],
     "run_timeout": 900,
     "manifest": {
-        "text": "Coq theorems over the reals about a state-machine model of ENUConverter: the frame matrix is a proper rotation "
+        "text": "SYNTACTIC TIE: the 3x3 frame block written by setAnchor is re-translated from the clang AST of the current source on every run (translate/srcfuns.py -> coq/gen/SrcFuns.v) and proved equal to the model's frame matrix. Coq theorems over the reals about a state-machine model of ENUConverter: the frame matrix is a proper rotation "
                 "(R^T R = I, det = 1) whose columns are the normalised longitude- and latitude-derivatives of toECEF (east, north) and "
                 "the ellipsoid normal (up); the anchor maps to the origin, a point h above it to (0,0,h); to-local is an isometry and "
                 "is inverse to to-ECEF both ways (Eigen's adjugate inverse of a rotation is its transpose); for every operation "
